@@ -27,6 +27,7 @@ func init() {
 	caddy.RegisterModule(probeHandler{})
 	caddy.RegisterModule(probeWrapper{})
 	caddy.RegisterModule(probeEvents{})
+	caddy.RegisterModule(probeLoader{})
 }
 
 func cb(kind byte, gen int, mod string) error {
@@ -39,26 +40,14 @@ func cb(kind byte, gen int, mod string) error {
 // ---- probe apps (two module ids sharing one implementation)
 
 type probeApp struct {
-	Gen  int    `json:"gen"`
-	Fail string `json:"fail,omitempty"` // "start": Start returns an error
+	Gen  int `json:"gen"`
 	name string
 }
 
 func (a *probeApp) Provision(caddy.Context) error { return cb('P', a.Gen, a.name) }
-func (a *probeApp) Start() error {
-	if err := cb('S', a.Gen, a.name); err != nil {
-		return err
-	}
-	if a.Fail == "start" {
-		if r := cur.Load(); r != nil {
-			r.rejecting(a.Gen)
-		}
-		return fmt.Errorf("verif: injected start failure")
-	}
-	return nil
-}
-func (a *probeApp) Stop() error    { return cb('T', a.Gen, a.name) }
-func (a *probeApp) Cleanup() error { return cb('C', a.Gen, a.name) }
+func (a *probeApp) Start() error                  { return cb('S', a.Gen, a.name) }
+func (a *probeApp) Stop() error                   { return cb('T', a.Gen, a.name) }
+func (a *probeApp) Cleanup() error                { return cb('C', a.Gen, a.name) }
 
 type probeAppA struct{ probeApp }
 type probeAppB struct{ probeApp }
@@ -164,7 +153,30 @@ func (p *probeEvents) Handle(_ context.Context, e caddy.Event) error {
 	return nil
 }
 
+// ---- config loader that cannot be provisioned: admin.config.load is set up by
+// finishSettingUp, after every app of the new config has started; its failure makes run()
+// stop and clean up the whole new config (unsyncedStop) and the load is rejected.
+
+type probeLoader struct {
+	Gen int `json:"gen"`
+}
+
+func (probeLoader) CaddyModule() caddy.ModuleInfo {
+	return caddy.ModuleInfo{ID: "caddy.config_loaders.verif_c02", New: func() caddy.Module { return new(probeLoader) }}
+}
+
+func (p *probeLoader) Provision(caddy.Context) error {
+	_ = cb('P', p.Gen, "l")
+	if r := cur.Load(); r != nil {
+		r.mark('J', p.Gen)
+	}
+	return fmt.Errorf("verif: injected config loader failure")
+}
+
+func (p *probeLoader) LoadConfig(caddy.Context) ([]byte, error) { return nil, nil }
+
 var (
+	_ caddy.ConfigLoader          = (*probeLoader)(nil)
 	_ caddy.App                   = (*probeAppA)(nil)
 	_ caddy.Provisioner           = (*probeAppA)(nil)
 	_ caddy.CleanerUpper          = (*probeAppA)(nil)
